@@ -147,7 +147,7 @@ func runC01(r *Run) {
 			}
 			return rx.ExchangeReserved(ctx, q)
 		}
-		var calls []*call01    // by model caller number
+		var calls []*call01 // by model caller number
 		waiting := map[int]bool{}
 		lastUser := map[uint16]int{}
 		var ops, outs []string
